@@ -250,6 +250,10 @@ def gen_case(rng, spec, m, method="first_order", mode=None, p_hist=0.0, p_var=0.
         vs = gen_variants(rng, case, m)
         if vs:
             case["variants"] = vs
+            # same parameters in every variant: the model object keeps ONE variant and the number of variants is given
+            # by simulate(..., num_variants=) (the model variant is then repeated by iter_variants)
+            if all(v["factor"] is None for v in vs) and rng.random() < 0.4:
+                case["nv_kwarg"] = True
     return case
 
 
@@ -539,17 +543,18 @@ def run_multi(case, m) -> dict:
     rec = {"per_variant": per, "span": span, "start": start, "error": None, "out": None, "nv": nv}
     try:
         with contextlib.redirect_stdout(io.StringIO()):
-            mm = nv_model(case, [p_[1] for p_ in per])
+            mm = per[0][1] if case.get("nv_kwarg") else nv_model(case, [p_[1] for p_ in per])
             db2 = merge_dbs([p_[3]["db2"] for p_ in per])
             plan = make_plan(mm, case)
         rec["db2"], rec["plan"] = db2, plan
+        kw = dict(sim_kwargs(case), **({"num_variants": nv} if case.get("nv_kwarg") else {}))
     except Exception as e:  # noqa -- the multi-variant object could not be set up: not a case
         rec["skip"] = True
         rec["setup_error"] = f"{type(e).__name__}: {str(e)[:300]}"
         return rec
     try:
         with contextlib.redirect_stdout(io.StringIO()):
-            rec["out"] = mm.simulate(db2, span, plan=plan, **sim_kwargs(case))
+            rec["out"] = mm.simulate(db2, span, plan=plan, **kw)
         for k, p_ in enumerate(per):
             p_[3]["out"] = split_db(rec["out"], k, nv)
             p_[3]["plan"] = plan
@@ -588,7 +593,7 @@ REPRO = ("harness.C07: m, _ = get_model(spec); rec = run_case(case, m); check_pr
 
 def shape_of(case) -> str:
     return (f"{case['method']}:{case['mode']}" + ("+status-off" if hist_has_off(case) else "")
-            + ("+variants" if case.get("variants") else ""))
+            + ("+variants" if case.get("variants") else "") + ("(num_variants=)" if case.get("nv_kwarg") else ""))
 
 
 def check_property(case, m, rec, acc=None) -> list[Failure]:
